@@ -339,3 +339,56 @@ func H_overflow_then_ops() {
 	verifJ(w, " after overflow + Add + Remove")
 	verifReach("overflow-then-ops")
 }
+
+// C10: the genuine failures - read errors, short reads, EOF - are forwarded to
+// Errors and the reader carries on; os.ErrClosed ends it silently.
+func H_read_errors() {
+	verifKReset()
+	w := verifNewInotify(1)
+	kind := verifChoose("failure", 3)
+	switch kind {
+	case 0:
+		verifK.script[0] = verifRead{err: unix.EIO}
+	case 1:
+		n := verifInt("short-n")
+		verifAssume(n >= 1 && n < 16)
+		verifK.script[0] = verifRead{n: n}
+	case 2:
+		verifK.script[0] = verifRead{n: 0}
+	}
+	verifK.nScript = 1
+	w.readEvents()
+	err, ok := <-w.Errors
+	verifAssert(ok && err != nil, "a failing read is reported on Errors")
+	if kind == 0 {
+		verifAssert(errors.Is(err, unix.EIO), "the read error itself is forwarded")
+	}
+	_, more := <-w.Errors
+	verifAssert(!more, "exactly one error per failing read")
+	_, ev := <-w.Events
+	verifAssert(!ev, "a failing read produces no event")
+	verifAssert(verifK.reads == 2, "the reader carries on with the next read after a failing one")
+	verifReach("read-errors")
+}
+
+// C01, known weak spot (DESIGN.md 6-E): a file watched through a symlink that
+// lives in a watched directory. The kernel reports the file's removal only as
+// IN_DELETE_SELF on the file's own watch (the watched directory is not the
+// file's parent, so it sees nothing); the event must therefore be delivered.
+func H_delete_self_via_symlink() {
+	verifKReset()
+	w := verifNewInotify(1)
+	verifSetupTable(w, 2) // "/t" and "/t/a"
+	viaLink := verifBool("watched-through-symlink-in-watched-dir")
+	verifAssume(verifK.marks[1].state == kDying)
+	ev, ok := verifDeliver(w, verifTable[1].wd, unix.IN_DELETE_SELF, 0)
+	verifAssert(ok, "reader keeps running")
+	if viaLink {
+		// "/t/a" is a symlink to a file elsewhere: "/t"'s watch does not report this removal
+		verifAssert(ev.Op == Remove && ev.Name == "/t/a", "removal of a watched file is lost: suppressed because the directory of its *name* is watched, although that directory is not the file's parent")
+		verifReach("delete-self-via-symlink")
+	} else {
+		verifAssert(ev.Op == 0, "duplicate Remove suppressed when the watched parent reports it")
+		verifReach("delete-self-parent-reports")
+	}
+}
